@@ -5,14 +5,14 @@ COMMON_TB = []
 
 PROPS = {
     "C09": {
-        "lean_modules": ["JrpcProofs.Props.C09", "JrpcProofs.Facts.Codes", "JrpcProofs.Facts.Wire", "JrpcProofs.Facts.Dispatch"],
+        "lean_modules": ["JrpcProofs.Props.C09", "JrpcProofs.Facts.Codes", "JrpcProofs.Facts.Wire", "JrpcProofs.Facts.Dispatch", "JrpcProofs.Facts.Framing", "JrpcProofs.Facts.Call", "JrpcProofs.Facts.Cancel"],
         "assumptions": [
             "encoding/json is an oracle: the harness tells the model, per params element, which declared types it decodes into",
             "message texts of library errors are not compared (codes, ids, shape, status and handler invocations are)",
         ],
     },
     "C12": {
-        "lean_modules": ["JrpcProofs.Props.C12", "JrpcProofs.Facts.Dispatch", "JrpcProofs.Facts.Codes"],
+        "lean_modules": ["JrpcProofs.Props.C12", "JrpcProofs.Facts.Dispatch", "JrpcProofs.Facts.Codes", "JrpcProofs.Facts.Call", "JrpcProofs.Facts.Naming"],
         "assumptions": [
             "method names start with an ASCII letter (Go identifiers in the harness do); the lower-first formatter slices one byte",
             "encoding/json is an oracle for per-parameter decodability",
@@ -23,7 +23,7 @@ PROPS = {
         "assumptions": ["net/http delivers header and form values as documented; permissions are compared for equality only"],
     },
     "C10": {
-        "lean_modules": ["JrpcProofs.Props.C10", "JrpcProofs.Facts.Frames", "JrpcProofs.Facts.Codes"],
+        "lean_modules": ["JrpcProofs.Props.C10", "JrpcProofs.Facts.Frames", "JrpcProofs.Facts.Codes", "JrpcProofs.Facts.Framing"],
         "assumptions": [
             "gorilla/websocket delivers whole messages and closes the connection itself on WebSocket-level protocol violations",
             "encoding/json classifies each params element (shape, uint64-decodability) — computed by the harness with the real decoder",
@@ -32,25 +32,25 @@ PROPS = {
         "timeout": 1500,
     },
     "C05": {
-        "lean_modules": ["JrpcProofs.Props.C05", "JrpcProofs.Facts.Backoff"],
+        "lean_modules": ["JrpcProofs.Props.C05", "JrpcProofs.Facts.Backoff", "JrpcProofs.Facts.ErrTypes", "JrpcProofs.Facts.Options", "JrpcProofs.Facts.Corr", "JrpcProofs.Facts.Call"],
         "assumptions": [
             "float64 arithmetic of backoff.next is modelled exactly over the rationals; the differential check allows a relative slack of 2^-40 + 1 ns",
             "rand.Float64() lies in [0,1)",
         ],
     },
     "C11": {
-        "lean_modules": ["JrpcProofs.Props.C11", "JrpcProofs.Facts.Errors"],
+        "lean_modules": ["JrpcProofs.Props.C11", "JrpcProofs.Facts.Errors", "JrpcProofs.Facts.ErrTypes", "JrpcProofs.Facts.Call"],
         "assumptions": [
             "the application's error types are parameters: Error/MarshalJSON/UnmarshalJSON/ToJSONRPCError/FromJSONRPCError are evaluated by the harness on the real types and handed to the model as tables",
             "encoding/json transports message strings (valid UTF-8) faithfully",
         ],
     },
     "C13": {
-        "lean_modules": ["JrpcProofs.Props.C13", "JrpcProofs.Facts.Recover"],
+        "lean_modules": ["JrpcProofs.Props.C13", "JrpcProofs.Facts.Recover", "JrpcProofs.Facts.Framing", "JrpcProofs.Facts.Call"],
         "assumptions": ["net/http recovers per request on its own; the library-side guarantee is doCall's recover", "the server runs in a child process; crash = the child exits"],
     },
     "C01": {
-        "lean_modules": ["JrpcProofs.Props.C01", "JrpcProofs.Facts.Call"],
+        "lean_modules": ["JrpcProofs.Props.C01", "JrpcProofs.Facts.Call", "JrpcProofs.Facts.OneShot", "JrpcProofs.Facts.Params", "JrpcProofs.Facts.Naming"],
         "assumptions": [
             "encoding/json is a codec parameter (marshal/unmarshal per declared type); splitting a JSON array into raw elements is faithful",
             "the harness's oracle for 'JSON round trip' is json.Unmarshal(json.Marshal(v)) into the declared type, compared with reflect.DeepEqual (floats by value and sign, raw JSON as values)",
@@ -58,7 +58,7 @@ PROPS = {
         ],
     },
     "C20": {
-        "lean_modules": ["JrpcProofs.Props.C20", "JrpcProofs.Facts.Reader"],
+        "lean_modules": ["JrpcProofs.Props.C20", "JrpcProofs.Facts.Reader", "JrpcProofs.Facts.Params"],
         "assumptions": [
             "net/http streams the upload body faithfully and a blocking body never returns (0, nil); which chunk sizes it returns is taken from the trace",
             "the rendezvous table has no observable trace without hooks: its theorem (C20_meet) is tied by the regenerated skeleton of ReaderParamDecoder and by forcing both arrival orders in the scenarios",
@@ -66,7 +66,7 @@ PROPS = {
         "timeout": 1500,
     },
     "C14": {
-        "lean_modules": ["JrpcProofs.Props.C14", "JrpcProofs.Facts.Locks"],
+        "lean_modules": ["JrpcProofs.Props.C14", "JrpcProofs.Facts.Locks", "JrpcProofs.Facts.Writers", "JrpcProofs.Facts.Cancel"],
         "race": True,
         "assumptions": [
             "gorilla/websocket writes a message as one or more frames of one message (reassembled by the proxy) and detects overlapping writers by panicking",
@@ -91,7 +91,7 @@ PROPS = {
         "timeout": 1500,
     },
     "C02": {
-        "lean_modules": ["JrpcProofs.Props.C02", "JrpcProofs.Lemmas.Corr", "JrpcProofs.Facts.Corr", "JrpcProofs.Facts.Frames"],
+        "lean_modules": ["JrpcProofs.Props.C02", "JrpcProofs.Lemmas.Corr", "JrpcProofs.Facts.Corr", "JrpcProofs.Facts.Frames", "JrpcProofs.Facts.OneShot", "JrpcProofs.Facts.Writers"],
         "assumptions": [
             "hooks only delay goroutines; two log entries written by different goroutines around one channel rendezvous may come in either order and are reconciled by the replayer (tau steps are counted in the evidence)",
             "ids of calls that are inside doRequest at the same time differ (id counter; int64 to float64 keys are injective below 2^53 calls)",
@@ -111,7 +111,7 @@ PROPS = {
         "timeout": 2400,
     },
     "C04": {
-        "lean_modules": ["JrpcProofs.Props.C04", "JrpcProofs.Lemmas.Corr", "JrpcProofs.Facts.Corr", "JrpcProofs.Facts.Backoff"],
+        "lean_modules": ["JrpcProofs.Props.C04", "JrpcProofs.Lemmas.Corr", "JrpcProofs.Facts.Corr", "JrpcProofs.Facts.Backoff", "JrpcProofs.Facts.Writers", "JrpcProofs.Facts.Call"],
         "assumptions": [
             "hooks only delay goroutines; two log entries written by different goroutines around one channel rendezvous may come in either order and are reconciled by the replayer (tau steps are counted in the evidence)",
             "ids of calls that are inside doRequest at the same time differ (id counter; int64 to float64 keys are injective below 2^53 calls)",
@@ -121,7 +121,7 @@ PROPS = {
         "timeout": 2400,
     },
     "C18": {
-        "lean_modules": ["JrpcProofs.Props.C18", "JrpcProofs.Lemmas.Corr", "JrpcProofs.Facts.Corr", "JrpcProofs.Props.Sweep", "JrpcProofs.Facts.Sweep"],
+        "lean_modules": ["JrpcProofs.Props.C18", "JrpcProofs.Lemmas.Corr", "JrpcProofs.Facts.Corr", "JrpcProofs.Props.Sweep", "JrpcProofs.Facts.Sweep", "JrpcProofs.Facts.OneShot"],
         "assumptions": [
             "hooks only delay goroutines; two log entries written by different goroutines around one channel rendezvous may come in either order and are reconciled by the replayer (tau steps are counted in the evidence)",
             "ids of calls that are inside doRequest at the same time differ (id counter; int64 to float64 keys are injective below 2^53 calls)",
@@ -138,7 +138,7 @@ PROPS = {
         ],
     },
     "C16": {
-        "lean_modules": ["JrpcProofs.Props.C16", "JrpcProofs.Facts.Reverse", "JrpcProofs.Facts.Corr", "JrpcProofs.Facts.Dispatch"],
+        "lean_modules": ["JrpcProofs.Props.C16", "JrpcProofs.Facts.Reverse", "JrpcProofs.Facts.Corr", "JrpcProofs.Facts.Dispatch", "JrpcProofs.Facts.Naming"],
         "assumptions": [
             "context.WithValue / Value and handler-context derivation are Go's (modelled as: a handler serving connection c sees exactly the value stored for c)",
             "'gone' means the server noticed the loss (FIN, RST, client close): the server side configures no timeout, so a silent peer is never noticed there (that is C17's territory, client side only)",
@@ -147,7 +147,7 @@ PROPS = {
         "timeout": 1500,
     },
     "C17": {
-        "lean_modules": ["JrpcProofs.Props.C17", "JrpcProofs.Facts.Keepalive", "JrpcProofs.Facts.Corr"],
+        "lean_modules": ["JrpcProofs.Props.C17", "JrpcProofs.Facts.Keepalive", "JrpcProofs.Facts.Corr", "JrpcProofs.Facts.Options"],
         "assumptions": [
             "G (largest gap between peer activities seen by this endpoint) and E (local latency between an activity, or a passed deadline, and the library acting on it; includes the time the main loop spends reading one frame) are environment parameters of the model, explicit guards of `tick`; the scenarios run with small ones",
             "a peer that answers pings gives G <= P + round trip: that the library's own ping handler does answer is tied by the healthy-link scenarios against every server ping setting (F10), not by a theorem",
@@ -157,7 +157,7 @@ PROPS = {
         "timeout": 1500,
     },
     "C15": {
-        "lean_modules": ["JrpcProofs.Props.C15", "JrpcProofs.Props.C06", "JrpcProofs.Facts.Cancel", "JrpcProofs.Facts.Corr"],
+        "lean_modules": ["JrpcProofs.Props.C15", "JrpcProofs.Props.C06", "JrpcProofs.Facts.Cancel", "JrpcProofs.Facts.Corr", "JrpcProofs.Facts.Params"],
         "assumptions": [
             "the goroutine model (main loop, reader, executor, forwarder, pinger, response writers) is tied by regenerated skeletons and by the goroutine profile (pprof labels) after each scenario, not by trace replay",
             "handleWS closes the socket after handleWsConn returns; a blocked NextReader then fails; the handlers return once cancelled (reaction time is a scenario parameter)",
